@@ -154,3 +154,12 @@ Proof.
   rewrite Hs in Hs'. injection Hs' as <- <-. simpl in Hn.
   rewrite (find_jc_name _ _ _ Hf) in Hn. congruence.
 Qed.
+
+(** per UID: when a UID is only ever used under one JobConfig name (Kubernetes UIDs are never
+    reused), Jobs with the same owner UID and schedule-time annotation are the same Job *)
+Theorem at_most_one_per_uid ops j1 j2 :
+  let w := rrun_world init_rworld ops in
+  (forall a b, In a (rw_api w) -> In b (rw_api w) -> cj_owner_uid a = cj_owner_uid b -> cj_owner_name a = cj_owner_name b) ->
+  In j1 (rw_api w) -> In j2 (rw_api w) ->
+  cj_owner_uid j1 = cj_owner_uid j2 -> cj_ann j1 = cj_ann j2 -> j1 = j2.
+Proof. intros w Hu H1 H2 Eu Ea. apply (at_most_one ops); auto. Qed.
